@@ -246,3 +246,157 @@ func ruleSessionReset(c *Checker, rule string) {
 		c.fail(rule, "session-reset|sites", 0, fmt.Sprintf("expected the two handshake entry points to install a Machine, found %d", n))
 	}
 }
+
+// ruleChunkMinimal (WIN-5, C09): "Send returns without waiting for the peer for the first N
+// messages" counts window slots per message. With splitting enabled a message of k*max bytes must
+// occupy k slots, not k+1: a non-final chunk data[off:off+max] is cut only under
+// remainder > max (strictly). Under `>=` an exact multiple is followed by one more, empty, final
+// packet - the peer still reassembles the message (C14 accepts that), but the window fills one
+// slot earlier and Send blocks on the peer before N messages are out.
+func ruleChunkMinimal(c *Checker) {
+	w := c.w
+	send := w.Func("(*gbn.GoBackNConn).Send")
+	fPayload := w.Field("gbn.PacketData.Payload")
+	fMax := w.Field("gbn.config.maxChunkSize")
+	if send == nil || fPayload == nil || fMax == nil || len(send.Params) < 2 {
+		c.anchorFail("Send / PacketData.Payload / config.maxChunkSize")
+		return
+	}
+	data := ssa.Value(send.Params[1])
+	n := 0
+	allInstrs(send, func(in ssa.Instruction) {
+		st, ok := in.(*ssa.Store)
+		if !ok {
+			return
+		}
+		fa, ok := st.Addr.(*ssa.FieldAddr)
+		if !ok || structFieldOf(fa) != fPayload {
+			return
+		}
+		sl, ok := unwrapLoadAlloc(st.Val).(*ssa.Slice)
+		if !ok || sl.X != data || sl.High == nil || sl.Low == nil {
+			return
+		}
+		n++
+		strict := false
+		for _, f := range factsAt(st.Block()) {
+			if factRel(f, func(v ssa.Value) bool { return isRemaining(v, data, sl.Low) }, func(v ssa.Value) bool { return isLoadOfField(v, fMax) }) == ">" {
+				strict = true
+			}
+		}
+		c.decide(strict, "WIN-5", "Send|a non-final chunk is cut only under remainder > max", instrPos(st),
+			"k*max bytes occupy k window slots",
+			"a non-final chunk is cut although the remainder fits one packet (remainder >= max instead of > max): a message of an exact multiple of the chunk size takes one window slot more than it needs, so Send waits for the peer before N such messages are out")
+	})
+	if n == 0 {
+		c.fail("WIN-5", "Send|non-final chunk", send.Pos(), "no non-final chunk site found in Send")
+	}
+}
+
+// ruleListenerClose (ORDER, C12): mailbox.Server owns the context every connection attempt of
+// Accept runs under. While the first Accept is still inside the gbn handshake there is no
+// mailboxConn yet and only that context can end the wait (the wait for a SYN has no timeout).
+// Every path through Server.Close therefore closes quit and calls cancel().
+func ruleListenerClose(c *Checker) {
+	w := c.w
+	fn := w.Func("(*mailbox.Server).Close")
+	fCancel := w.Field("mailbox.Server.cancel")
+	fQuit := w.Field("mailbox.Server.quit")
+	if fn == nil || fCancel == nil || fQuit == nil {
+		c.anchorFail("(*mailbox.Server).Close / Server.cancel / Server.quit")
+		return
+	}
+	isCancel := func(in ssa.Instruction) bool {
+		call, ok := in.(*ssa.Call)
+		return ok && !call.Common().IsInvoke() && isLoadOfField(call.Common().Value, fCancel)
+	}
+	isCloseQuit := func(in ssa.Instruction) bool {
+		call, ok := in.(*ssa.Call)
+		if !ok {
+			return false
+		}
+		b, ok := call.Common().Value.(*ssa.Builtin)
+		return ok && b.Name() == "close" && isLoadOfField(call.Common().Args[0], fQuit)
+	}
+	for _, step := range []struct {
+		name string
+		is   func(ssa.Instruction) bool
+		why  string
+	}{
+		{"cancel()", isCancel, "an Accept that is still inside the gbn handshake (no connection handed out yet) is never woken, its reader goroutine and relay stream stay behind"},
+		{"close(quit)", isCloseQuit, "an Accept waiting for the previous connection's Done() is never woken"},
+	} {
+		bad := ""
+		allInstrs(fn, func(in ssa.Instruction) {
+			ret, ok := in.(*ssa.Return)
+			if !ok || ret.Block().Comment == "recover" {
+				return
+			}
+			if pathFromEntry(fn, ret, step.is) {
+				bad = w.pos(instrPos(ret))
+			}
+		})
+		c.decide(bad == "", "ORDER", "Server.Close|"+step.name+" on every path", fn.Pos(), "no return avoids it",
+			"Server.Close can return (at "+bad+") without "+step.name+": "+step.why)
+	}
+}
+
+// ruleCtorCleanup (LIFE, C12; imported by C11): the gbn constructors create the connection's
+// context, hand it to the transport callbacks of the handshake (mailbox binds its relay streams
+// to it) and start the handshake's reader goroutine. When the handshake fails the constructor is
+// the only one who still knows the connection: every error leg after the handshake call passes
+// Close(), which cancels that context. Without it the failed attempt keeps its relay stream
+// (exclusive on the real hashmail server) and its reader goroutine for ever.
+func ruleCtorCleanup(c *Checker) {
+	w := c.w
+	gclose := w.Func("(*gbn.GoBackNConn).Close")
+	if gclose == nil {
+		c.anchorFail("(*gbn.GoBackNConn).Close")
+		return
+	}
+	for _, pr := range [][2]string{{"gbn.NewClientConn", "clientHandshake"}, {"gbn.NewServerConn", "serverHandshake"}} {
+		ctor := w.Func(pr[0])
+		if ctor == nil {
+			c.anchorFail(pr[0])
+			continue
+		}
+		isClose := func(in ssa.Instruction) bool {
+			ci, ok := in.(ssa.CallInstruction)
+			if !ok {
+				return false
+			}
+			if _, isGo := in.(*ssa.Go); isGo {
+				return false
+			}
+			return ci.Common().StaticCallee() == gclose
+		}
+		n := 0
+		bad := ""
+		for _, ci := range findCalls(ctor, func(ci ssa.CallInstruction) bool {
+			sc := ci.Common().StaticCallee()
+			return sc != nil && sc.Name() == pr[1]
+		}) {
+			n++
+			allInstrs(ctor, func(in ssa.Instruction) {
+				ret, ok := in.(*ssa.Return)
+				if !ok || len(ret.Results) == 0 || ret.Block().Comment == "recover" {
+					return
+				}
+				failing := false
+				for _, v := range expandValues(ret.Results[0]) {
+					if isNilConst(v) {
+						failing = true
+					}
+				}
+				if failing && pathExists(ci, ret, isClose) {
+					bad = w.pos(instrPos(ret))
+				}
+			})
+		}
+		if n == 0 {
+			bad = "no call of " + pr[1]
+		}
+		c.decide(bad == "", "LIFE", pr[0]+"|a failed handshake closes the connection", ctor.Pos(), "every return without a connection after the handshake call passes Close()",
+			pr[0]+" can give up after a failed handshake ("+bad+") without Close(): the attempt's context is never cancelled, so its reader goroutine and the relay stream bound to that context stay behind (the next attempt finds the mailbox occupied)")
+	}
+}
